@@ -180,6 +180,29 @@ pub fn point_in_arc_sweep(c: &Constraint, x: &[f64], margin: f64) -> Option<bool
 /// Is the geometry of this constraint inside (or within a factor ~2 of) one of the coarse absolute
 /// guard bands of the solver, where the linearisation is switched off while the error measure is
 /// still live (documented degeneracies)?  Thresholds are absolute because the guards are.
+/// The request's geometry has collapsed exactly (zero-length line, coincident defining points, zero
+/// arc radius) for the kinds whose error measure or linearisation is undefined there.  Written from
+/// the documented meaning of the kinds; the polynomial kinds (Parallel, Perpendicular, Vertical,
+/// Horizontal, Midpoint, Fixed, ...) and the circle kinds have no such collapse.
+pub fn collapsed(c: &Constraint, x: &[f64]) -> bool {
+    let z = |a: &DatumPoint, b: &DatumPoint| pt(x, a).sub(pt(x, b)).len() == 0.0;
+    match c {
+        Constraint::Distance(p, q, _) => z(p, q),
+        Constraint::LinesEqualLength(l0, l1) => z(&l0.p0, &l0.p1) || z(&l1.p0, &l1.p1),
+        Constraint::LinesAtAngle(l0, l1, AngleKind::Other(_)) => z(&l0.p0, &l0.p1) || z(&l1.p0, &l1.p1),
+        Constraint::ArcAngle(a, _) => z(&a.center, &a.start) || z(&a.center, &a.end),
+        Constraint::ArcRadius(a, _) => z(&a.center, &a.start) || z(&a.center, &a.end),
+        Constraint::ArcLength(a, _) => z(&a.center, &a.start),
+        Constraint::LineTangentToCircle(l, _) => z(&l.p0, &l.p1),
+        Constraint::PointLineDistance(_, l, _) => z(&l.p0, &l.p1),
+        Constraint::VerticalPointLineDistance(_, l, _) => z(&l.p0, &l.p1),
+        Constraint::HorizontalPointLineDistance(_, l, _) => z(&l.p0, &l.p1),
+        Constraint::Symmetric(l, _, _) => z(&l.p0, &l.p1),
+        Constraint::PointArcCoincident(a, p) => z(&a.center, &a.start) || z(&a.center, p),
+        _ => false,
+    }
+}
+
 pub fn in_guard_band(c: &Constraint, x: &[f64]) -> bool {
     let len = |a: &DatumPoint, b: &DatumPoint| pt(x, a).sub(pt(x, b)).len();
     match c {
